@@ -1041,6 +1041,8 @@ def main(ctx):
             return [getattr(c.copy(), op[1])(op[2], op[3])]
         if op[0] == "params":
             return [c.H0(), c.DH(), c.omega_m(), c.omega_l(), c.omega_k(), float(c.flat())]
+        if op[0] == "badvec":
+            return [c.Da(np.array([0.1, 0.2, 0.3]), np.array([0.5, 0.6]))]      # mismatched lengths: must raise
         return [getattr(c, op[0])(*op[1:])]
 
     def c_modules():
@@ -1049,6 +1051,6 @@ def main(ctx):
 
     object_world(ctx, "several-objects", list(CK), lambda kind: Cosmo(**CK[kind]),
                  [("Dc", 0.1, 1.0), ("Da", 0.2, 0.8), ("sigmacritinv", 0.2, 0.8), ("V", 0.0, 0.5), ("vec", "Dl"),
-                  ("copy", "Dm", 0.0, 1.5), ("params",)],
+                  ("copy", "Dm", 0.0, 1.5), ("params",), ("badvec",)],
                  c_do, c_modules, depth=ctx.pick(3, 4), nodedup_depth=ctx.pick(3, 4),
                  state=lambda c: {k: v for k, v in c.__dict__.items() if k != "Distmod"})
